@@ -188,8 +188,10 @@ def check(prop, ev, bounds=None, cvc5_cross=False):
             import typeflowlemmas
             fo, ff = typeflowlemmas.function_call(S, bounds or {"block": 3, "array": 2})
             ao, af = typeflowlemmas.assignment(S)
-            obls = obls + fo + ao
-            fns = sorted(set(fns) | set(ff) | set(af))
+            import envlemmas
+            eo, ef = envlemmas.obligations(S)
+            obls = obls + fo + ao + eo
+            fns = sorted(set(fns) | set(ff) | set(af) | set(ef))
         except Unencodable as e:
             inconc.append(f"unencodable (FunctionCall type-state flow lemma): {e}")
     ev.cov["functions_encoded"] = [f"{n} [mir sha256:{h}]" for n, h in fns]
@@ -235,6 +237,9 @@ def check(prop, ev, bounds=None, cvc5_cross=False):
             elif role.endswith(":closure-body-effects-reach-the-state"):
                 import typeflowlemmas
                 res = [(a, b, {}) for a, b in typeflowlemmas.closure_battery()]
+            elif role.endswith(":every-variable-carries-the-binding-of-the-code-that-ran"):
+                import envlemmas
+                res = [(a, b, {}) for a, b in envlemmas.battery()]
             elif role.endswith(":state-follows-the-runtime-stores"):
                 import typeflowlemmas
                 res = [(a, b, {}) for a, b in typeflowlemmas.assignment_battery()]
